@@ -24,10 +24,10 @@ from lib.tlc import MachineryError, require_actions
 K = 2.0
 DT = 0.25
 
-HEDGE_CFGS = {"quick": ["q_singles", "q_combos1", "q_long1", "q_combos2"],
-              "thorough": ["q_singles", "q_combos1", "q_long1", "q_combos2", "t_long1", "t_combos1", "t_combos2"]}
-PAIR_CFGS = {"quick": ["q_singles", "q_combos1", "q_combos2"],
-             "thorough": ["q_singles", "q_combos1", "q_combos2", "t_singles", "t_combos1"]}
+HEDGE_CFGS = {"quick": ["q_singles", "q_combos1", "q_long1", "q_combos2", "q_t2h1", "q_t2h2"],
+              "thorough": ["q_singles", "q_combos1", "q_long1", "q_combos2", "q_t2h1", "q_t2h2", "t_long1", "t_combos1", "t_combos2"]}
+PAIR_CFGS = {"quick": ["q_singles", "q_combos1", "q_combos2", "q_t2h1", "q_t2h2"],
+             "thorough": ["q_singles", "q_combos1", "q_combos2", "q_t2h1", "q_t2h2", "t_singles", "t_combos1"]}
 
 
 def run_hedge_models(ctx: Ctx, pairs: bool = False) -> Tuple[List[Dict[str, Any]], List[Dict[str, Any]]]:
@@ -93,9 +93,13 @@ def replay_hedger(ctx: Ctx, focus: str) -> None:
                 before = [{n: b.clone() for n, b in s.named_buffers()} for s in stocks]
                 try:
                     got = hedger.compute_hedge(deriv, hedge=hedge)
+                    # C03 evaluates three times on the SAME hedger (state carried between evaluations is its business);
+                    # C01/C02 use a fresh hedger per computation so that only the computation itself is judged
+                    h2 = hedger if focus == "C03" else build_hedger(cfg, dtype)[0]
+                    portfolio = h2.compute_portfolio(deriv, hedge=hedge)
+                    h3 = hedger if focus == "C03" else build_hedger(cfg, dtype)[0]
+                    plv = h3.compute_pl(deriv, hedge=hedge)
                     rows_seen = list(model.seen)
-                    portfolio = hedger.compute_portfolio(deriv, hedge=hedge)
-                    plv = hedger.compute_pl(deriv, hedge=hedge)
                 except Exception as e:
                     ctx.violation(f"{focus}:hedger-raises", f"Hedger raised {type(e).__name__} on a lattice configuration",
                                   {"cfg": cfg, "T": T, "error": repr(e)[:300]})
@@ -199,9 +203,14 @@ def check_c03_group(ctx: Ctx, cfg, recs, paths, T, H, hedger, model, rows_seen, 
     # (c) prev_hedge trace: input at step i carries the output of step i-1 (zeros, H wide, at step 0)
     if "prev_hedge" in cfg["feats"]:
         ctx.traces_validated += len(recs)
-        bad = validate_prev_trace(ctx, cfg, recs, T, H, rows_seen, got)
-        if bad is not None:
-            ctx.violation(bad[0], bad[1], bad[2])
+        if len(rows_seen) != 3 * (T - 1):
+            ctx.violation("hedger:stepwise-call-count", f"three evaluations called the model {len(rows_seen)} times for T={T}", {"cfg": cfg})
+        else:
+            for ev_no in range(3):      # compute_hedge, compute_portfolio, compute_pl on the same hedger, in this order
+                bad = validate_prev_trace(ctx, cfg, recs, T, H, rows_seen[ev_no * (T - 1):(ev_no + 1) * (T - 1)], got)
+                if bad is not None:
+                    ctx.violation(bad[0], bad[1] + f" (evaluation #{ev_no + 1} of the same hedger)", bad[2])
+                    break
 
 
 def compare_feature_forms(ctx: Ctx, f: str, cfg, paths, T: int, H: int, dtype):
@@ -390,7 +399,7 @@ def c02_selftest(ctx: Ctx) -> None:
 
 def c03_selftest(ctx: Ctx) -> None:
     """Binding demonstrations: a feature whose single-step form lags by one column, and a corrupted prev_hedge trace."""
-    recs = [r for r in ctx._hedge_recs if r["cfg"]["feats"] == ["moneyness"]]
+    recs = [r for r in ctx._hedge_recs if r["cfg"]["feats"] == ["moneyness"] and len(r["m"]["spot"]) == 3]
     cfg = recs[0]["cfg"]
     paths = [r["m"] for r in recs]
     T = len(paths[0]["spot"])
@@ -398,7 +407,7 @@ def c03_selftest(ctx: Ctx) -> None:
     probe.__dict__.update({"evaluations": 0, "distinct": set(), "sections": {}})
     bad = compare_feature_forms(probe, "lagging_moneyness", cfg, paths, T, 1, torch.float64)
     ctx.selftest("a feature whose get(i) lags get(None) by one column is rejected", bad is not None)
-    recs = [r for r in ctx._hedge_recs if r["cfg"]["feats"] == ["prev_hedge"]]
+    recs = [r for r in ctx._hedge_recs if r["cfg"]["feats"] == ["prev_hedge"] and len(r["m"]["spot"]) == 3]
     cfg = recs[0]["cfg"]
     T = len(recs[0]["m"]["spot"])
     deriv, hedge, _ = build_market(cfg, [r["m"] for r in recs], K, DT, torch.float64)
